@@ -84,13 +84,31 @@ func (fs DirFs) Delete(dir, fname string) {
 }
 
 func (fs DirFs) AtomicCreate(dir, fname string, data []byte) {
-	tmpFile := fname + ".tmp"
-	fd, err := unix.Openat(fs.rootFd, tmpFile,
-		unix.O_CREAT|unix.O_WRONLY, 0644)
-	if err != nil {
-		panic(err)
+	// Stage the data in a new file in the root directory (so it never shows up
+	// in List(dir)). O_EXCL gives this call a file of its own: leftovers of an
+	// interrupted call, a directory of the same name or a concurrent
+	// AtomicCreate make us move on to the next name instead of sharing it.
+	var tmpFile string
+	var fd int
+	for i := 0; ; i++ {
+		var err error
+		tmpFile = fmt.Sprintf("%s.%d.tmp", fname, i)
+		fd, err = unix.Openat(fs.rootFd, tmpFile,
+			unix.O_CREAT|unix.O_EXCL|unix.O_WRONLY, 0644)
+		if err == nil {
+			break
+		}
+		if err != unix.EEXIST {
+			panic(err)
+		}
 	}
 	defer unix.Close(fd)
+	renamed := false
+	defer func() {
+		if !renamed {
+			unix.Unlinkat(fs.rootFd, tmpFile, 0)
+		}
+	}()
 	for len(data) > 0 {
 		n, err := unix.Write(fd, data)
 		if err != nil {
@@ -98,7 +116,7 @@ func (fs DirFs) AtomicCreate(dir, fname string, data []byte) {
 		}
 		data = data[n:]
 	}
-	err = unix.Fsync(fd)
+	err := unix.Fsync(fd)
 	if err != nil {
 		panic(err)
 	}
@@ -106,6 +124,7 @@ func (fs DirFs) AtomicCreate(dir, fname string, data []byte) {
 	if err != nil {
 		panic(err)
 	}
+	renamed = true
 }
 
 func (fs DirFs) Link(oldDir, oldName, newDir, newName string) bool {
